@@ -8,14 +8,16 @@ import (
 func init() {
 	plans["C16"] = Plan{Prop: "C16", Level: "exploration", Exhaustive: true,
 		Rule: "full application (NewDatahubInstance, node security 'local', all middlewares) driven in-process through echo.ServeHTTP. " +
-			"(1) every e.Routes() entry x 8 listed token defects (absent, garbage, expired, wrong key, wrong issuer, wrong audience, HS256-with-public-key, none) + 2 unlisted (no audience, no issuer), all claiming the admin role: must be 401/403 on every non-open route. " +
+			"(1) every e.Routes() entry x 8 listed token defects (absent, garbage, expired, wrong key, wrong issuer, wrong audience, HS256-with-public-key, none) + 2 unlisted (no audience, no issuer), plus one variant per signing algorithm the JWT library knows other than RS256 (RS384/512, PS256/384/512 correctly signed with the node's own RSA key, HS256/384/512 keyed with the node's public key PEM, ES256/384/512 and EdDSA with fresh keys, none), all claiming the admin role with right issuer / audience / expiry: must be 401/403 on every non-open route. " +
 			"(2) every ordered ACL list without repetition of size <=2 (quick) / <=3 (thorough) over {/datasets/a, /datasets/a*, /datasets/*, /datasets/a/entities, /jobs*, /*} x {read,write} x {allow,deny}, installed through the admin API for a registered client whose token is obtained by the real assertion exchange, x every route (dataset routes also for the neighbours ab and b): status not in {401,403} => reference decision (written from the statement) grants and does not deny; GET /datasets may list only granted names. " +
 			"(3) every sequence of <=3 (quick) / <=4 (thorough) security-admin operations (register, unregister, set ACL incl. for a never-registered client, delete ACL): clients and ACLs identical after re-initialising the security core from disk; plus one re-boot of the whole application per child. " +
-			"(4) OPA branch against a loopback stub. One case = one ACL list / token variant / op sequence; non-trivial = some ACL entry's pattern matches a requested path (ACL cases), >=2 kinds of operations (restart cases)",
+			"(4) OPA branch against a loopback stub. (5) path-spelling dimension, applied to every request of (1), (2) and (4): percent-encoded first / last / all characters of every path parameter (lower- and upper-case hex), of the first and last static segment, encoded slash before / after a parameter and at the end, double slash (leading, before / after a parameter), trailing slash, dot and dot-dot segments (plain and encoded); the real router is asked which route it picks, spellings it does not route (its own 404 / 405) are counted and not judged; the reference decision is taken on the percent-DECODED request path, and a served entities / changes body is attributed to the dataset whose content it holds. One case = one ACL list / token variant / op sequence; non-trivial = some ACL entry's pattern matches a requested path (ACL cases), >=2 kinds of operations (restart cases)",
 		Assumptions: []string{
 			"one-directional oracle: served (status not in {401,403}) => granted and not denied; over-rejection is counted, not alarmed",
 			"needed action: write for every method other than GET/HEAD/OPTIONS (also for the read-like POST /query, which the hub also demands)",
 			"a write grant is taken to include read; a deny entry blocks only its own action (weakest readings)",
+			"the path an ACL entry speaks about is the percent-decoded request path; double / trailing slashes and dot segments are NOT normalised away (the statement does not say so): such a spelling is judged on its literal decoded path",
+			"every algorithm other than RS256 (the one the hub signs with) is 'the wrong algorithm'",
 			"open routes are those the documentation and the JWT skipper name: /health, /security/token (+ static/api paths, which have no registered route)",
 			"OPA_ENDPOINT is empty in (1)-(3), so the OPA call fails at once and the ACL decides; with OPA allowing, the documented union semantics is not alarmed on",
 			"token expiry is relative to the wall clock by nature of JWT; verdicts are functions of the recorded status codes only",
